@@ -47,4 +47,12 @@ func applyEngineParams(h *symex.HarnessRun, params map[string]int) {
 	if v, ok := params["witnesses"]; ok {
 		h.WitnessMax = v
 	}
+	if v, ok := params["yieldMask"]; ok {
+		h.Yields = map[int]bool{}
+		for p := 0; p < 32; p++ {
+			if v&(1<<p) != 0 {
+				h.Yields[p] = true
+			}
+		}
+	}
 }
